@@ -327,6 +327,7 @@ class Real:
                 q = z3.Int('fmodq!%d' % s.nfresh)
                 ab = z3.If(b >= 0, b, -b)
                 s.axioms.append(z3.And(a == z3.ToReal(q) * b + t, z3.If(a >= 0, z3.And(t >= 0, t < ab), z3.And(t <= 0, -t < ab))))
+                s.__dict__.setdefault('fmodq', []).append((a, b, t, q))          # the integer quotients, for obligations that need a witness
             return t
         # generic uninterpreted
         return s.fn(name, len(args))(*[s.z(a) for a in args])
